@@ -22,7 +22,8 @@
    the repository's mock documents and on structure-preserving mutations of them. *)
 From AP.Model Require Import Prelude Bytes Text WsDoc Vocab Layout Json JsonLeaf JsonTables JsonEnc JsonCheck JsonDec JsonCodec SpecTags DocEquiv Shape.
 From AP.Gen Require Import Layout TypeLists Switches JsonW JsonR.
-From AP.Proofs Require Import NlvP TextP WsParseP DecEquivP ShapeP DecInstP.
+From AP.Model Require Import Url CollIri UrlU.
+From AP.Proofs Require Import NlvP TextP WsParseP DecEquivP ShapeP DecInstP IriNfP UrlUP AsIriP.
 From Coq Require Import Permutation.
 
 Theorem C05_reads_vocabulary : check_all_spec jw_tables jr_tables spec_props = [].
@@ -231,6 +232,54 @@ Proof. exact list_value_one. Qed.
 Theorem C05_iri_string_element : forall n raw, as_iri (Text.FStr raw) = Some (Some (fj_unescape raw)) -> fj_unescape raw <> [] ->
   elem_loads (load (S n)) (Text.FStr raw) (IIri false (fj_unescape raw)).
 Proof. exact (elem_loads_string jr_tables layout_of registry load_switch tl_ActivityTypes tl_ActorTypes tl_LinkTypes). Qed.
+(* WHEN a string is an IRI (asIRI of decoding_json.go as repaired, as_iri of Model/JsonDec.v over the net/url model of
+   Model/UrlU.v, compared with the real asIRI by Cases_C01_asiri): its text - no quote, backslash or byte < 0x20 - reads
+   scheme "://" rawhost rawpath ["?" query] ["#" fragment]  (AsIriP.iri_reading: scheme letters-first, no control byte
+   before the "#", a host that url.parseHost accepts and that is not empty once decoded, a path that is empty or begins
+   with "/", every "%" of host, path and fragment followed by two hex digits; bytes >= 0x80, spaces and escapes of any
+   byte are allowed) *)
+Theorem C05_as_iri_accepts : forall raw sch rh rp qo fo,
+  fj_has_special (fj_unescape raw) = false -> iri_reading (fj_unescape raw) sch rh rp qo fo ->
+  as_iri (Text.FStr raw) = Some (Some (fj_unescape raw)).
+Proof. exact as_iri_accepts. Qed.
+Theorem C05_as_iri_accepted : forall raw s,
+  as_iri (Text.FStr raw) = Some (Some s) ->
+  s = fj_unescape raw /\ fj_has_special s = false /\
+  exists u sch rh rp qo fo, url_classify_u s = UValid u /\ ustruct s sch rh rp qo fo /\
+    u_scheme u = lower sch /\ pct_decode rh = Some (u_host u) /\ u_host u <> [] /\ pct_decode rp = Some (u_path u) /\
+    u_query u = IriNfP.opt_or_nil qo.
+Proof. exact as_iri_accepted. Qed.
+(* the model extends the test of the plain grammar of Model/Url.v, which the decoder model used before *)
+Theorem C05_as_iri_of_plain : forall raw u, url_classify (fj_unescape raw) = UValid u ->
+  as_iri (Text.FStr raw) = Some (Some (fj_unescape raw)).
+Proof. exact as_iri_of_plain. Qed.
+(* hence an IRI string of that reading is an element at every level of embedding *)
+Theorem C05_iri_reading_element : forall n raw sch rh rp qo fo,
+  fj_has_special (fj_unescape raw) = false -> iri_reading (fj_unescape raw) sch rh rp qo fo -> fj_unescape raw <> [] ->
+  elem_loads (load (S n)) (Text.FStr raw) (IIri false (fj_unescape raw)).
+Proof. exact (fun n raw sch rh rp qo fo Hs Hr Hne => C05_iri_string_element n raw (as_iri_accepts raw sch rh rp qo fo Hs Hr) Hne). Qed.
+(* the pinned tree tested with url.ParseRequestURI, which does not cut the fragment: an absolute URL whose fragment
+   follows the host directly was not an IRI for the decoder (fix: commit) *)
+Theorem C05_as_iri_pinned_refuted : exists raw u,
+  url_classify (fj_unescape raw) = UValid u /\
+  as_iri_pinned (Text.FStr raw) = Some None /\ as_iri (Text.FStr raw) = Some (Some (fj_unescape raw)).
+Proof. exact as_iri_pinned_refuted. Qed.
+Example C05_as_iri_examples :
+  as_iri (Text.FStr (hx "68747470733a2f2f6578616d706c652e636f6d2f75736572732f6ac3bc7267656e")) = Some (Some (hx "68747470733a2f2f6578616d706c652e636f6d2f75736572732f6ac3bc7267656e")) /\
+  as_iri (Text.FStr (B "https://example.com/a%20b?q=%C3%A9&r=a+b")) = Some (Some (B "https://example.com/a%20b?q=%C3%A9&r=a+b")) /\
+  as_iri (Text.FStr (B "https://example.com#me")) = Some (Some (B "https://example.com#me")) /\
+  as_iri (Text.FStr (B "https://example.com/%zz")) = Some None /\
+  as_iri (Text.FStr (B "https://u@example.com/")) = None /\
+  (exists sch rh rp qo fo, iri_reading (B "https://example.com/a%20b?q=%C3%A9#f") sch rh rp qo fo).
+Proof.
+  repeat split; try (vm_compute; reflexivity).
+  exists (B "https"), (B "example.com"), (B "/a%20b"), (Some (B "q=%C3%A9")), (Some (B "f")).
+  constructor; try (vm_compute; reflexivity); try (vm_compute; tauto).
+  - exists (B "example.com"). split; [vm_compute; reflexivity|discriminate].
+  - right. eexists. reflexivity.
+  - eexists. vm_compute. reflexivity.
+  - vm_compute. discriminate.
+Qed.
 (* the statement is not vacuous on the current tables: every kind has item-valued read entries of these two
    forms (today 12 to 19 single-item and 6 or 7 list properties per object kind; Link has preview) *)
 Example C05_shape_coverage :
